@@ -31,6 +31,8 @@ pub trait LockObserver: Send + Sync {
     fn before(&self, lock: usize, class: LockClass, mode: Mode, kind: Kind, site: &'static Location<'static>);
     /// called after the attempt; `acquired` is false for a failed try / timed acquisition
     fn after(&self, lock: usize, class: LockClass, mode: Mode, kind: Kind, acquired: bool, site: &'static Location<'static>);
+    /// called when a guard is about to be dropped, before the lock is actually released (may block the calling thread)
+    fn releasing(&self, lock: usize, class: LockClass, mode: Mode);
     /// called after a guard has been dropped
     fn released(&self, lock: usize, class: LockClass, mode: Mode);
 }
@@ -180,8 +182,12 @@ impl<T> DerefMut for RwLockWriteGuard<'_, T> {
 
 impl<T> Drop for RwLockReadGuard<'_, T> {
     fn drop(&mut self) {
+        let obs = observer();
+        if let Some(o) = &obs {
+            o.releasing(self.id, self.class, Mode::Read);
+        }
         drop(self.guard.take());
-        if let Some(o) = observer() {
+        if let Some(o) = &obs {
             o.released(self.id, self.class, Mode::Read);
         }
     }
@@ -189,9 +195,30 @@ impl<T> Drop for RwLockReadGuard<'_, T> {
 
 impl<T> Drop for RwLockWriteGuard<'_, T> {
     fn drop(&mut self) {
+        let obs = observer();
+        if let Some(o) = &obs {
+            o.releasing(self.id, self.class, Mode::Write);
+        }
         drop(self.guard.take());
-        if let Some(o) = observer() {
+        if let Some(o) = &obs {
             o.released(self.id, self.class, Mode::Write);
         }
+    }
+}
+
+// identities of the locks behind the public handle types, so that an observer can name them
+impl crate::Element {
+    pub fn verif_lock_id(&self) -> usize {
+        self.0.verif_id()
+    }
+}
+impl crate::AutosarModel {
+    pub fn verif_lock_id(&self) -> usize {
+        self.0.verif_id()
+    }
+}
+impl crate::ArxmlFile {
+    pub fn verif_lock_id(&self) -> usize {
+        self.0.verif_id()
     }
 }
